@@ -33,7 +33,7 @@ func familyByName(name string) *family {
 }
 
 func init() {
-	families = []*family{famBytes, famBytesEdge, famTokens, famTokensEdge, famRepeat, famDeepTable, famPadded, famBytes6, famUnicode, famFolds, famRunaway}
+	families = []*family{famBytes, famBytesEdge, famTokens, famTokensEdge, famRepeat, famDeepTable, famPadded, famBytes6, famUnicode, famFolds, famRunaway, famGoroutineFolds}
 }
 
 // ---------------------------------------------------------------------------------------------
@@ -249,6 +249,9 @@ var openers = []opener{
 	// nested closures with a reference to a name the inner closures do not declare (an outer argument,
 	// an undeclared name): name resolution walks all enclosing scopes
 	{"b->", "a", ""}, {"b->", "x", ""}, {"b->", "b+a*x", ""}, {"(b,c)->", "abs(a)", ""},
+	// postfix chains behind ONE operand (the blanks in front only fill the opener's slot): calls of the
+	// result of a call, with and without arguments, failing at the innermost level or not
+	{" ", "sin", "()"}, {" ", "a", "(1)"}, {" ", "abs", "(1)"}, {" ", "a", ".m()"}, {" ", "a", "[0]"}, {" ", "x", "()"},
 	{"a+", "a", ""}, {"a.m", "", ""}, {"let x=1;", "x", ""}, {"func f(x) x;", "1", ""}, {"[1,", "1", "]"}, {"//c\n", "1", ""}, {"\"\\\"", "", "\""},
 }
 
